@@ -45,6 +45,13 @@ def group(viols):
     return out
 
 
+def model_check_book(ctx):
+    """IndexBook.tla itself: every reachable state within the bound satisfies the invariants the traces are held to."""
+    c = vlib.cfg(spec="BSpec", constants={"MaxID": 3 if ctx.quick() else 4},
+                 invariants=["BTypeOK", "FreshMeansComplete", "UpdatedAndHeldIsIndexed", "LingeringIsQueued"])
+    ctx.tlc("IndexBook", c, workers=4, deadlock=False)
+
+
 def run(ctx):
     rnd = random.Random(ctx.seed)
     q = ctx.quick()
@@ -63,6 +70,24 @@ def run(ctx):
         r = ctx.tlc("IndexLifecycle", c, workers=2, allow_violation=True, count=False)
         if r.ok:
             raise vlib.Infra("IndexLifecycle invariants accept the AsImplemented variant in mode %s (vacuous model)" % mode)
+    hs = histories(ctx)
+    ctx.log("histories: %d" % len(hs))
+    ctx.replay(hs, timeout=3000, postprocess=group)
+    # direction B: index updates recorded from the repository's own tests and from replayed histories
+    # must be behaviours of IndexBook.tla
+    from checks import c13_trace
+    model_check_book(ctx)
+    c13_trace.run(ctx, hs)
+    # EXT: history independence of small stateful objects (spec/Lexicon.tla, spec/Windows.tla)
+    from checks import ext_structs
+    ext_structs.run_lexicon(ctx)
+    ext_structs.run_windows(ctx)
+
+
+def histories(ctx):
+    """The TLC-generated histories of one run (a function of tier and seed)."""
+    rnd = random.Random(ctx.seed * 7919 + 13)
+    q = ctx.quick()
     hs = []
     # exhaustive over a seed-chosen catalogue of two shapes (one of them may be the edgeless full polygon),
     # random walks over the whole catalogue
@@ -83,9 +108,4 @@ def run(ctx):
         uniq[json.dumps(x, sort_keys=True)] = x
     hs = list(uniq.values())
     rnd.shuffle(hs)
-    ctx.log("histories: %d" % len(hs))
-    ctx.replay(hs, timeout=3000, postprocess=group)
-    # EXT: history independence of small stateful objects (spec/Lexicon.tla, spec/Windows.tla)
-    from checks import ext_structs
-    ext_structs.run_lexicon(ctx)
-    ext_structs.run_windows(ctx)
+    return hs
